@@ -17,6 +17,9 @@ GEN_RS = os.path.join(core.HARNESS, "vh-derive", "src", "gen_types.rs")
 NESTED_DEFS = None
 
 
+DERIVE_CAP = 6000
+
+
 def nested_defs():
     """The predefined nested types, as schemas (must agree with spec/Derive.tla: they are emitted by TLC too)."""
     F = lambda idx, opt, tag, ty: {"idx": idx, "opt": opt, "tag": tag, "ty": ty, "skip": False}
@@ -60,6 +63,19 @@ def prepare(ver, wd):
         keys.setdefault(schema2rs.canon(c["in"]["schema"]), c["in"]["schema"])
         if "wschema" in c["in"]:
             keys.setdefault(schema2rs.canon(c["in"]["wschema"]), c["in"]["wschema"])
+    # rustc cannot take every definition of the thorough model in one crate (34 000 types, 300 000 lines: killed after two hours):
+    # beyond DERIVE_CAP the replayed definitions are a seeded hash sample of the model's, a different one for every seed; the
+    # invariants of MC_Derive are evaluated by TLC on all of them regardless
+    total_mc = len(keys)
+    if total_mc > DERIVE_CAP:
+        import hashlib
+        def h(k):
+            return int(hashlib.sha1(f"{ver.seed}:{k}".encode()).hexdigest()[:8], 16)
+        kept = set(sorted(keys, key=h)[:DERIVE_CAP])
+        keys = {k: v for k, v in keys.items() if k in kept}
+        ver.notes.append(f"derive: S->I replays {DERIVE_CAP} of the {total_mc} type definitions of the thorough model (hash sample seeded by the run's seed) "
+                         "together with every case that involves only those; the model's own invariants are checked on all of them")
+    mc_keys = set(keys)
     # seeded random schemas from the wider grammar join the generated types (I->S, validated by TLC on recorded events)
     nsch, nvals, npairs = (400, 12, 250) if ver.tier == "thorough" else (90, 8, 50)
     rschemas, rt, compat = randschema.generate(ver.seed, nsch, nvals, npairs)
@@ -77,12 +93,18 @@ def prepare(ver, wd):
     schemas = [keys[k] for k in order]
     cases = os.path.join(wd, "derive.cases.ndjson")
     with open(cases, "w") as out:
+        n = 0
         for line in open(raw):
             c = json.loads(line)
-            c["sid"] = ids[schema2rs.canon(c["in"]["schema"])]
-            if "wschema" in c["in"]:
-                c["wsid"] = ids[schema2rs.canon(c["in"]["wschema"])]
+            k1 = schema2rs.canon(c["in"]["schema"])
+            k2 = schema2rs.canon(c["in"]["wschema"]) if "wschema" in c["in"] else None
+            if k1 not in mc_keys or (k2 is not None and k2 not in mc_keys):
+                continue
+            c["sid"] = ids[k1]
+            if k2 is not None:
+                c["wsid"] = ids[k2]
             out.write(json.dumps(c) + "\n")
+            n += 1
     os.remove(raw)
     excluded = set()
     for attempt in range(4):
